@@ -1,6 +1,6 @@
 import AmrK.TasteComplete
 import AmrK.TasteAll
-import AmrK.ConstantsProps
+import AmrK.Obligations.HeaderLiteral
 /-! # C03 — taste accepts every well-formed plotfile under every option combination
 
 Completeness of the validator model (`Taste.tastePlt` / `tasteLevelOpts`, the executable definitions
